@@ -183,7 +183,7 @@ class Wrapper:
         if application not in self._descriptors:
             updates = set(self._inventory.list()).difference(self._descriptors)
             self._descriptors.update({a: None for a in updates})
-            if application not in updates:
+            if application not in self._descriptors:  # not in updates if a concurrent lookup has registered it meanwhile
                 raise forml.MissingError(f'Application {application} not found in {self._registry}')
         if not self._descriptors[application]:
             self._descriptors[application] = self._inventory.get(application)
